@@ -104,6 +104,10 @@ def gen_run(rng, allow_async=True):
         r["interval"], r["ptimeout"] = rng.choice(((2 * S, None), (3 * S, S), (7 * S, 2 * S)))
     if mode == "thread_close":
         r["close_t"] = rng.choice((0, 1, S // 8, S // 2, S, 3 * S, r["end_t"], r["end_t"] + 1))
+        if rng.random() < 0.5:
+            # the server takes a moment to answer the close frame: the closing thread waits for the answer while the
+            # loop thread is woken by it
+            r["close_reply_delay"] = rng.choice((1, S // 8, S // 2, 2 * S))
     return r
 
 
@@ -214,6 +218,8 @@ def expand(item, seed):
                             r["interval"], r["ptimeout"] = 2 * S, S
                         if mode == "thread_close":
                             r["close_t"] = S + S // 2
+                            if ping:
+                                r["close_reply_delay"] = S // 4
                         if as_second:
                             if mode in ("thread_close", "ping_timeout_midframe"):
                                 continue
@@ -449,6 +455,10 @@ def run(sc, choices=None):
             ctx = f"async_close@{phase}"
         elif mode == "thread_close":
             ctx = f"async_close@{phase}"
+            if phase == "running" and (sc.get("policy") or {}).get("kind", "coop") == "coop":
+                # threads change over only where one of them blocks: the windows of a few lines that the known findings
+                # of the running phase need cannot be hit, whatever goes wrong here is something else
+                ctx += "/cooperative"
         elif mode in ("cb_close", "kbi"):
             ctx = f"{mode}/{r.get('cb')}"
         else:
